@@ -538,7 +538,13 @@ Fixpoint tail (unf : bool) (stk : list (ev * N)) (index size : N) (racc : list l
 Definition scan (lc : bool) (bs : bytes) : list lexev * outcome :=
   let '(racc, o, s, idx) := run lc bs sc0 0%N bs [] in
   match o with
-  | Done => let '(racc', o') := tail (s_unf s) (s_stack s) idx idx racc in (frev racc', o')
+  | Done =>
+    (* fix 0219b8c: processTail first refuses a text that ends after the first byte of // or /* (unfinishedAnnotationStart is
+       true exactly while the step is the state switchToAnnotation installs) *)
+    match s_step s with
+    | StAnyAnnotationStart => (frev racc, Err code_unexpected_eof (idx - 1)%N)
+    | _ => let '(racc', o') := tail (s_unf s) (s_stack s) idx idx racc in (frev racc', o')
+    end
   | _ => (frev racc, o)
   end.
 
